@@ -66,9 +66,13 @@ GrpcScnCases(maxLen) ==
              steps |-> [k \in 1..n |-> [tag |-> Segs[k], pre |-> f[k].pre, status |-> f[k].status, post |-> f[k].post, want |-> f[k].want]]] :
                f \in [1..n -> GrpcStepVariants]} : n \in 1..maxLen}
 
-SpaceQuick == HttpCases(200, 599) \cup HttpSideCases \cup NoPathCases(1..3) \cup ScnCancelCases \cup TagCases({"uri", "json"}, 1..3) \cup GrpcCases \cup GrpcBad \cup GrpcFail \cup Invalid
+\* heterogeneous grpc/json files, several times the provider's queue (128) long: tagged entries, entries without a tag key,
+\* lines that are not JSON, in patterns whose period is prime to the queue length
+GrpcFileCases(n) == {[kind |-> "grpcfile", n |-> n, pattern |-> p] :
+                        p \in {<<"ta", "">>, <<"ta", "tb", "", "tc", "", "">>, <<"ta", "", "!", "tb", "", "">>}}
+SpaceQuick == GrpcFileCases(600) \cup HttpCases(200, 599) \cup HttpSideCases \cup NoPathCases(1..3) \cup ScnCancelCases \cup TagCases({"uri", "json"}, 1..3) \cup GrpcCases \cup GrpcBad \cup GrpcFail \cup Invalid
               \cup HttpScnCases(2) \cup GrpcScnCases(2)
-SpaceBig   == HttpCases(200, 599) \cup HttpSideCases \cup NoPathCases(1..5) \cup ScnCancelCases \cup TagCases({"uri", "json", "raw", "uripost"}, 1..5) \cup GrpcCases \cup GrpcBad \cup GrpcFail \cup Invalid
+SpaceBig   == GrpcFileCases(2500) \cup HttpCases(200, 599) \cup HttpSideCases \cup NoPathCases(1..5) \cup ScnCancelCases \cup TagCases({"uri", "json", "raw", "uripost"}, 1..5) \cup GrpcCases \cup GrpcBad \cup GrpcFail \cup Invalid
               \cup HttpScnCases(3) \cup GrpcScnCases(3)
 \* scenario cases alone (3 steps: 5 831 + 3 615 cases) are the bulk of the thorough space
 
@@ -76,6 +80,7 @@ SpaceBig   == HttpCases(200, 599) \cup HttpSideCases \cup NoPathCases(1..5) \cup
 Small == {[kind |-> "http", out |-> Out("status", 200)], [kind |-> "http", out |-> Out("reset", 0)],
           [kind |-> "http", out |-> Out("truncated", 503)],
           [kind |-> "grpc", status |-> 13],
+          [kind |-> "grpcfile", n |-> 3, pattern |-> <<"ta", "", "!">>],
           [kind |-> "tag", fmt |-> "uri", tag |-> "", at |-> [enabled |-> TRUE, depth |-> 1, notagonly |-> TRUE],
            elems |-> <<"s1", "s2">>, query |-> "", uri |-> "/s1/s2"],
           [kind |-> "tag", fmt |-> "uri", tag |-> "", at |-> [enabled |-> TRUE, depth |-> 1, notagonly |-> TRUE],
